@@ -670,6 +670,23 @@ def d_validate( ctx ):
                 else: wrong.append(( s, c, 'written elements must not extend past the requested range (endmax <= endactual)' ))
     for s, c, why in wrong:
         res.bad( src, s, c, why, func='Logix.reply_elements' )
+    # ---- a path with several element segments ( Q[1,99] ) is refused: reply_elements asserts that the index tuple has ONE entry, and
+    # resolve_element collects EVERY element segment - a loop that stops at the first one ( break / return inside it ) makes the assertion
+    # dead: the second index is dropped silently, Q[1,99] is served as Q[1]
+    dsrc = ctx.src( 'server/enip/device.py' )
+    rel_ = dsrc.get( 'resolve_element' )
+    loops_ = [ l_ for l_ in walk_no_nested( rel_ ) if isinstance( l_, ast.For ) and any( isinstance( c_, ast.Call ) and isinstance( c_.func, ast.Attribute ) and c_.func.attr == 'append' for c_ in ast.walk( l_ )) ]
+    one_dim = [ a_ for a_ in walk_no_nested( re_fn ) if isinstance( a_, ast.Assert ) and any( isinstance( c_, ast.Compare ) and is_call_to( c_.left, 'len' ) and isinstance( c_.ops[0], ast.Eq ) and try_fold( c_.comparators[0] ) == 1
+                                                                                            and c_.left.args and rld.direct( dotted( c_.left.args[0] ) or '', lambda w: is_call_to( w, 'resolve_element' )) for c_ in ast.walk( a_.test )) ]
+    if not loops_:
+        raise AnalysisError( 'resolve_element: the loop collecting element segments not found' )
+    early_ = [ b_ for b_ in ast.walk( loops_[0] ) if isinstance( b_, ( ast.Break, ast.Return )) ]
+    if one_dim and not early_:
+        res.ok( src, one_dim[0], 'a path with more than one element segment is refused ( every element segment is collected, exactly one is accepted )' )
+    elif not one_dim:
+        res.bad( src, re_fn, 'reply_elements does not assert a single-dimensional index', 'a multi-dimensional index would be served through its first entry', func='Logix.reply_elements' )
+    else:
+        res.bad( dsrc, early_[0], 'resolve_element stops at the first element segment', 'the assertion in reply_elements that the index has one entry can never fail: Q[1,99] is served as Q[1] - read and WRITTEN - with status success', func='resolve_element' )
     # a PLAIN Write Tag carries exactly the elements it announces ( for the Fragmented service the count is that of the whole range ): an
     # assert `<fragmented service> or <written end> == <requested end>` ( or len( data ) == elements ).  Sized from the data present alone,
     # a truncated Write Tag that announces 5 elements and carries 2 is acknowledged and stores the 2.
@@ -855,6 +872,20 @@ def d_type( ctx ):
     # the .type store must be reachable for (exactly) the read services
     if n == 0:
         res.bad( src, fn, 'Logix.request read branch', 'the read reply never reports the tag type' )
+    # a scalar tag keeps the Python type of its configured default: the value setter converts EVERY assigned value with type( self.default ) -
+    # unconditionally.  Skipped for values that "already are" of that type, a bool ( a subclass of int: what a BOOL-typed write delivers )
+    # is stored as such, becomes the new default, and every later write is converted with bool(): writing 1234 reads back 1
+    dsrc = ctx.src( 'server/enip/device.py' )
+    setter = [ f for f in ast.walk( dsrc.tree ) if isinstance( f, ast.FunctionDef ) and f.name == 'value' and dsrc.qualname_of( f ).startswith( 'Attribute' )
+               and any( isinstance( d_, ast.Attribute ) and d_.attr == 'setter' for d_ in f.decorator_list ) ]
+    if len( setter ) != 1:
+        raise AnalysisError( 'Attribute.value setter not found' )
+    st_ = [ a_ for a_ in ast.walk( setter[0] ) if isinstance( a_, ast.Assign ) and any( dotted( t_ ) == 'self.default' for t_ in a_.targets ) ]
+    PV = setter[0].args.args[1].arg
+    if st_ and all( pmatch( a_.value, 'type( self.default )( %s )' % PV ) is not None and dsrc.parent.get( a_ ) is setter[0] for a_ in st_ ):
+        res.ok( dsrc, st_[0], 'a scalar tag stores type( self.default )( value ), unconditionally' )
+    else:
+        res.bad( dsrc, st_[0] if st_ else setter[0], 'Attribute.value setter stores the assigned value without converting it on some path', 'a value of a SUBCLASS of the tag\'s Python type ( bool for an integer tag: a BOOL-typed write ) is kept as it is and becomes the new default: from then on every write to the tag is converted with bool()' )
     # read data comes from the attribute slice [beg:end]
     reads = pfind( fn, '_r = _a[_b:_e]', nested=False )
     got = [ ( node, m ) for node, m in reads if is_attribute_receiver( m['_a'], ld ) ]
@@ -1547,6 +1578,8 @@ def d_echo( ctx ):
                 for t in tg:
                     scanned += 1
                     tt = txt( t )
+                    if tt.replace( ' ', '' ) in ( 'data.enip', "data['enip']" ) and not isinstance( st, ast.Delete ):
+                        res.bad( s_, st, st, 'the whole encapsulation envelope of the reply is replaced: the session handle, sender context and command it echoes must be those of the REQUEST ( a forwarded request\'s response envelope belongs to the gateway\'s own session with the target )', func=qn )
                     if 'sender_context' in tt or tt.endswith( '.command' ) or tt.endswith( "['command']" ) or tt.endswith( '.options' ):
                         res.bad( s_, st, st, 'the reply must echo the request\'s sender context / command unchanged', func=qn )
                     if 'session_handle' in tt:
@@ -2087,6 +2120,48 @@ def e_contain( ctx ):
         res.bad( src, eofs[0], 'enip_srv_udp stores the end-of-session flag ( %s )' % norm_text( eofs[0] ), 'one datagram that is answered with an error status makes the server ignore every later datagram from that peer, and closes an existing TCP session from the same address: a malformed input changes how OTHER, well-formed requests are served', func='enip_srv_udp' )
     else:
         res.ok( src, ud, 'enip_srv_udp never stores the end-of-session flag of a peer' )
+    # one datagram, one request: the frame machine asking for MORE input after a datagram was received means the datagram ended inside a
+    # frame - that request fails ( the guard `assert not <peer>` ahead of the receive ), it is never completed from the next datagram of
+    # whatever peer.  The guard is live only if <peer> is assigned from the source address of the datagram received in the same loop.
+    rc = [ a_ for a_ in ast.walk( ud ) if isinstance( a_, ast.Assign ) and is_call_to( a_.value, 'network.recvfrom' ) and isinstance( a_.targets[0], ast.Tuple ) and len( a_.targets[0].elts ) == 2 ]
+    if not rc:
+        raise AnalysisError( 'enip_srv_udp: <msg>, <peer> = network.recvfrom( ... ) not found' )
+    FRM = dotted( rc[0].targets[0].elts[1] )
+    loop_ = [ l_ for l_ in src.ancestors( rc[0] ) if isinstance( l_, ast.For ) ]
+    if not loop_:
+        raise AnalysisError( 'enip_srv_udp: engine loop around the receive not found' )
+    guards_ = [ a_ for a_ in loop_[0].body if isinstance( a_, ast.Assert ) and isinstance( a_.test, ast.UnaryOp ) and isinstance( a_.test.op, ast.Not ) and isinstance( a_.test.operand, ast.Name )
+                and a_.lineno < rc[0].lineno ]
+    live_ = [ g_ for g_ in guards_ if any( isinstance( s_, ast.Assign ) and any( dotted( t_ ) == g_.test.operand.id for t_ in s_.targets ) and dotted( s_.value ) == FRM and s_.lineno > rc[0].lineno for s_ in loop_[0].body ) ]
+    if live_:
+        res.ok( src, live_[0], 'a datagram that ends inside a frame fails its request ( the peer of the datagram just received is remembered, more input is refused )' )
+    else:
+        res.bad( src, guards_[0] if guards_ else rc[0], 'enip_srv_udp: nothing remembers that a datagram was already received for the request being parsed', 'a truncated datagram is completed from the NEXT datagram - of any peer: that peer\'s request is mis-framed or swallowed, and its reply carries bytes of the other peer\'s request', func='enip_srv_udp' )
+    return res
+
+
+@rule( 'W-PRINT', props=( 'C05', ), floor=2 )
+def w_print( ctx ):
+    """main(): the --print wrapper of Attribute ( Attribute_print ) stores first and formats afterwards, so whatever it formats must be total for
+    every key the handlers use - an index, a slice with bounds, and the bound-less slice `att[:] = values` of Set Attribute Single: the bounds
+    shown come from key.indices( len( self )), never from arithmetic on key.start / key.stop ( None - 1 raises AFTER the store: the request is
+    answered with a failure, the tag is changed )"""
+    res = Result( 'W-PRINT' )
+    src = ctx.src( 'server/enip/main.py' )
+    cls = [ c for c in ast.walk( src.tree ) if isinstance( c, ast.ClassDef ) and any( isinstance( f, ast.FunctionDef ) and f.name == '__setitem__' for f in c.body )
+            and any( isinstance( x, ast.Call ) and call_name( x ) == 'print' for x in ast.walk( c )) ]
+    if not cls:
+        raise AnalysisError( 'main: the printing Attribute wrapper ( a class with __setitem__ that prints ) not found' )
+    for c in cls:
+        for f in [ f for f in c.body if isinstance( f, ast.FunctionDef ) ]:
+            params = { a.arg for a in f.args.args }
+            raw = [ b for b in ast.walk( f ) if isinstance( b, ( ast.BinOp, ast.UnaryOp, ast.Compare )) and any(
+                isinstance( o, ast.Attribute ) and o.attr in ( 'start', 'stop', 'step' ) and isinstance( o.value, ast.Name ) and o.value.id in params
+                for o in ( [ b.left, b.right ] if isinstance( b, ast.BinOp ) else [ b.operand ] if isinstance( b, ast.UnaryOp ) else [ b.left ] + b.comparators )) ]
+            if raw:
+                res.bad( src, raw[0], '%s.%s computes with a raw slice bound ( %s )' % ( c.name, f.name, norm_text( raw[0] )), 'for the bound-less slice of Set Attribute Single ( att[:] = values ) the bound is None: the arithmetic raises after the values were stored - the request is answered 0x08, the tag is overwritten' )
+            elif f.name in ( '__setitem__', '__getitem__' ) or any( isinstance( o, ast.Attribute ) and o.attr in ( 'start', 'stop' ) for o in ast.walk( f )):
+                res.ok( src, f, '%s.%s: no arithmetic on raw slice bounds' % ( c.name, f.name ))
     return res
 
 
@@ -2329,6 +2404,20 @@ def k_routekey( ctx ):
 def c_main( ctx ):
     """main(): --simple => UCMM.route_path False; --route-path X => parse_route_path( X ); default => no UCMM subclass (route_path None)"""
     res = Result( 'C-MAIN' )
+    # the configured personality reaches the object that filters: logix.process creates the device through setup( **kwds ) - with the keywords
+    # that carry the UCMM class - BEFORE anything that can fail.  ( The UCMM is a process-wide singleton made by the first setup() call; the
+    # connection handler calls process again WITHOUT keywords after a failure: if a first frame with an unparsable payload fails ahead of
+    # setup( **kwds ), that keyword-less call creates a plain accept-anything UCMM and the personality is lost for the life of the process. )
+    lsrc = ctx.src( LOGIX )
+    pf = lsrc.get( 'process' )
+    body = [ b for b in pf.body if not ( isinstance( b, ast.Expr ) and isinstance( b.value, ast.Constant )) ]
+    first = body[0] if body else None
+    def is_setup_kw( c ):
+        return is_call_to( c, 'setup' ) and any( k.arg is None and dotted( k.value ) == ( pf.args.kwarg.arg if pf.args.kwarg else None ) for k in c.keywords )
+    if first is not None and isinstance( first, ast.Assign ) and is_setup_kw( first.value ):
+        res.ok( lsrc, first, 'process: the device is set up with the configuration keywords before anything that can fail' )
+    else:
+        res.bad( lsrc, first if first is not None else pf, 'process does not begin with setup( **kwds )', 'a failure ahead of it ( a first frame whose payload cannot be parsed ) lets the keyword-less termination call create the singleton UCMM: a plain accept-anything one - the configured route path / simple personality is lost for the life of the process', func='process' )
     src = ctx.src( MAIN )
     fn = src.get( 'main' )
     ifs = [ i for i in ast.walk( fn ) if isinstance( i, ast.If ) and ( pmatch( i.test, 'args.route_path is not None or args.simple' )
@@ -2627,6 +2716,18 @@ def d_ownpath( ctx ):
                      'an attribute of THIS object is read or written for a request whose path names another ( possibly non-existent ) object', func=qn )
         else:
             res.ok( src, own[0].stmt, '%s: all %d accesses to its attributes are dominated by the assertion that the request path names this object' % ( qn, len( acc )))
+    # ---- Get / Set Attribute Single: the attribute number is what the WHOLE path resolves to ( resolve( data.path, attribute=True )): a tag is
+    # addressed by name as well as by class / instance / attribute ( C03 ); taken from the literal key of the last segment, a symbolic path -
+    # which resolves to the very same attribute - is refused
+    src = ctx.src( DEVICE )
+    fn = src.get( 'Object.request' )
+    keyed = [ x for x in ast.walk( fn ) if isinstance( x, ast.Subscript ) and try_fold( x.slice ) == 'attribute' and 'path' in txt( x.value ) and isinstance( x.ctx, ast.Load ) ]
+    via = [ a for a in ast.walk( fn ) if isinstance( a, ast.Assign ) and is_call_to( a.value, 'resolve' ) and any( k.arg == 'attribute' and try_fold( k.value ) is True for k in a.value.keywords )
+            and isinstance( a.targets[0], ast.Tuple ) and len( a.targets[0].elts ) == 3 ]
+    if via and not keyed:
+        res.ok( src, via[0], 'Object.request: Get / Set Attribute Single take the attribute number from resolve( data.path, attribute=True )' )
+    else:
+        res.bad( src, keyed[0] if keyed else fn, 'Object.request takes the attribute number from the literal key of a path segment', 'Get / Set Attribute Single of a tag addressed by its symbolic name is refused ( 0x08 ) although the name resolves to the same class / instance / attribute', func='Object.request' )
     return res
 
 
@@ -3077,6 +3178,39 @@ def p_route( ctx ):
     else:
         res.bad( src, h, 'UCMM.request: the handler of a failed routed exchange forgets the shared route connection without closing it',
                  'dropping the table entry closes nothing while another session holds the connection ( it is blocked on its lock ): that session sends its request on the same socket and is answered with the reply to the request that timed out - a reply delivered to the wrong session' )
+    # ---- the table of route connections is shared by all session threads:
+    # (1) looking a connection up and creating it when absent happen under one lock ( two sessions creating one each: the later store
+    #     replaces the earlier entry while a third session already waits on the first connection );
+    # (2) the connection the exchange runs on is the one found / created there ( a local ), not a second look-up of the table;
+    # (3) the handler closes THAT connection, and forgets the table entry only if it still is that connection ( else it closes the healthy
+    #     replacement and leaves the failed one in use: the next session is answered with the reply still in flight )
+    creates = [ a_ for a_ in ast.walk( T ) if isinstance( a_, ast.Assign ) and any( isinstance( t_, ast.Subscript ) and 'route_conn' in txt( t_.value ) for t_ in a_.targets )
+                and any( isinstance( c_, ast.Call ) and ( call_name( c_ ) or '' ).endswith( 'connector' ) for c_ in ast.walk( a_.value )) ]
+    if not creates:
+        raise AnalysisError( 'UCMM.request: creation of a route connection ( self.route_conn[target] = client.connector( ... )) not found' )
+    def locked_( n_ ):
+        return [ w_ for w_ in src.ancestors( n_ ) if isinstance( w_, ast.With ) and any( 'lock' in txt( i_.context_expr ).lower() for i_ in w_.items ) ]
+    lookups = [ x_ for x_ in ast.walk( T ) if (( isinstance( x_, ast.Compare ) and any( isinstance( o_, ( ast.In, ast.NotIn )) for o_ in x_.ops ) and any( 'route_conn' in txt( c_ ) for c_ in x_.comparators ))
+                                               or ( isinstance( x_, ast.Call ) and isinstance( x_.func, ast.Attribute ) and x_.func.attr == 'get' and 'route_conn' in txt( x_.func.value )))
+                and not any( x_ is y_ for y_ in ast.walk( h )) ]
+    lk = locked_( creates[0] )
+    if lk and any( any( l_ is y_ for y_ in ast.walk( lk[0] )) for l_ in lookups ):
+        res.ok( src, creates[0], 'a route connection is looked up and, when absent, created under one lock' )
+    else:
+        res.bad( src, creates[0], 'UCMM.request: the shared table of route connections is tested and filled without a lock',
+                 'two sessions that find no connection create one each; the later store replaces the earlier entry while a third session already waits on the first: after a time-out the handler closes the wrong one and the waiting session is answered with another session\'s reply' )
+    LOCALS_ = { t_.id for a_ in creates for t_ in a_.targets if isinstance( t_, ast.Name ) } | { t_.id for a_ in ast.walk( T ) if isinstance( a_, ast.Assign ) and any( l_ is y_ for l_ in lookups for y_ in ast.walk( a_.value )) for t_ in a_.targets if isinstance( t_, ast.Name ) }
+    withs = [ w_ for w_ in ast.walk( T ) if isinstance( w_, ast.With ) and any( isinstance( i_.optional_vars, ast.Name ) and i_.optional_vars.id == CONN for i_ in w_.items ) ]
+    if withs and all( isinstance( i_.context_expr, ast.Name ) and i_.context_expr.id in LOCALS_ for w_ in withs for i_ in w_.items if isinstance( i_.optional_vars, ast.Name ) and i_.optional_vars.id == CONN ):
+        res.ok( src, withs[0], 'the exchange runs on the connection found / created under the lock ( a local ), not on a second look-up of the table' )
+    else:
+        res.bad( src, withs[0] if withs else aw, 'UCMM.request: the routed exchange looks the connection up in the table again', 'between the creation and the second look-up another session may have replaced the entry: the exchange, and the handler, then deal with different connections' )
+    if closes and all( isinstance( c_.func.value, ast.Name ) and c_.func.value.id in LOCALS_ for c_ in closes ) \
+       and all( any( isinstance( g_, ast.If ) and any( isinstance( x_, ast.Compare ) and any( isinstance( o_, ast.Is ) for o_ in x_.ops ) and 'route_conn' in txt( x_ ) for x_ in ast.walk( g_.test )) for g_ in src.ancestors( d_ ) if any( g_ is y_ for y_ in ast.walk( h )))
+                for d_ in ast.walk( h ) if ( isinstance( d_, ast.Delete ) and any( 'route_conn' in txt( x_ ) for x_ in d_.targets )) or ( isinstance( d_, ast.Call ) and isinstance( d_.func, ast.Attribute ) and d_.func.attr == 'pop' and 'route_conn' in txt( d_.func.value ))):
+        res.ok( src, closes[0], 'the handler closes the connection it used and forgets the table entry only if it is still that connection' )
+    elif closes:
+        res.bad( src, closes[0], 'UCMM.request: the handler closes / forgets whatever connection the table holds now', 'when the entry was replaced meanwhile the healthy replacement is closed and the failed connection stays in use: a session waiting on it is answered with the reply still in flight' )
     if h.type is None or dotted( h.type ) in ( 'Exception', 'BaseException' ):
         res.ok( src, h, 'any failure of the routed exchange deletes the shared route connection and re-raises' )
     else:
